@@ -253,7 +253,7 @@ def eq_cases(D):
 
 
 def limit_cases(D):
-    """Coq case literals for the ball-joint limit rows of one block: (nv, dofadr, quaternion ++ range, efc_pos + margin ++ dense row)"""
+    """Coq case literals for the ball-joint limit rows of one block: (nv, dofadr, quaternion ++ range, efc_pos ++ dense row)"""
     out = []
     nv = D["nv"][0]
     if "jnt_range" not in D:
@@ -264,7 +264,7 @@ def limit_cases(D):
         j = D["efc_id"][i]
         a = D["jnt_qposadr"][j]
         out.append("(%d%%nat, %d%%nat, %s, %s)" % (nv, D["jnt_dofadr"][j], F.flist(D["qpos"][a:a + 4] + D["jnt_range"][2 * j:2 * j + 2]),
-                                                  F.flist([D["efc_pos"][i] + D["efc_margin"][i]] + D["efc_J"][i * nv:(i + 1) * nv])))
+                                                  F.flist([D["efc_pos"][i]] + D["efc_J"][i * nv:(i + 1) * nv])))
     return out
 
 
